@@ -10,5 +10,15 @@ CLAIMED = {
   note="Bounds: per-field lists <= 3/4 entries of <= 6 bytes; whole rule with every list <= 1/2. Trusted: gosym executor, z3; path-witness replay. Outside: scheme defaulting in Admit.",
   technique="symbolic execution of go/ssa + SMT (QF_BV), self-differential (before/after normalisation)",
   ref="9/C17"),
+ "C08": dict(
+  text="Bounded symbolic model checking of the real globalMaxInflight.SetState (one inductive step from an arbitrary state satisfying count = sum of per-instance counts) and of rateLimiter.DoAcquire against scripted fakes of its interfaces; every obligation is an SMT query over all counts, limits, request ids and fake answers.",
+  note="Bounds: <= 3 known instances + 1 new, counts/max in [0,2^20), ids int64 >= 0; DoAcquire: one item, any int32 tokens, <= 4 symbolic bucket answers. Sequential semantics (locks/atomics are no-ops): racing reports/removals are not decided here. Trusted: gosym, z3; native replay of witnesses.",
+  technique="symbolic execution of go/ssa + SMT (QF_BV), inductive step over a symbolic pre-state",
+  ref="9/C08"),
+ "C13": dict(
+  text="Bounded symbolic model checking of GetShardID with hash/fnv executed from source (range, determinism), of the gateway side clientSets.sync/ShardIDFor against the server side mapping, and of the leadership guards of the limiter server against scripted fakes.",
+  note="Bounds: names <= 8 (quick) / 16 (thorough) arbitrary bytes, 1 <= N < 2^31; shard count transmitted as int32. x mod y < y is supplied to the solver as a lemma. Outside: N >= 2^31, leader election itself, guard-to-access window.",
+  technique="symbolic execution of go/ssa + SMT (QF_BV)",
+  ref="9/C13"),
 }
 NOT_APPLICABLE = {}
